@@ -45,23 +45,42 @@ Proof.
 Qed.
 
 (* ---- dispatch ---- *)
+(* the worker drops a queued object that is no longer the tracked one; everything tracked keeps its place *)
+Definition tracked_id (s : xstate) (id : N) : bool :=
+  match afind (e_hash (obj s id)) (x_table s) with Some id' => N.eqb id' id | None => false end.
+
 Lemma dispatch_same fuel s :
   let s' := dispatch fuel s in
   x_table s' = x_table s /\ x_objs s' = x_objs s /\ x_next s' = x_next s /\ x_timers s' = x_timers s /\
-  x_workers s' = x_workers s /\ (forall id, pend s' id = pend s id) /\
+  x_workers s' = x_workers s /\ (forall id, pend s' id <= pend s id)%nat /\
+  (forall id, tracked_id s id = true -> pend s' id = pend s id) /\
   (length (x_inflight s') <= Nat.max (length (x_inflight s)) (x_workers s))%nat.
 Proof.
   revert s. induction fuel as [|f IH]; intros s; cbn zeta; cbn [dispatch]; [repeat split; auto; try lia|].
   destruct (x_queue s) as [|id rest] eqn:Eq; [repeat split; auto; try lia|].
   destruct (Nat.ltb_spec (length (x_inflight s)) (x_workers s)); [|repeat split; auto; lia].
-  match goal with |- context [dispatch f ?t] => destruct (IH t) as [A [B [C [D [E [F G]]]]]]; cbn zeta in * end.
-  cbn [x_table x_objs x_next x_timers x_workers x_queue x_inflight] in *.
-  repeat split; auto.
-  - intros id'. rewrite F. unfold pend. cbn [x_queue x_inflight x_timers]. rewrite Eq, cnt_snoc.
-    assert (Hc : cnt id' (id :: rest) = ((if N.eq_dec id id' then 1 else 0) + cnt id' rest)%nat)
-      by (unfold cnt; simpl; destruct (N.eq_dec id id'); reflexivity).
-    rewrite Hc. destruct (N.eq_dec id id'); lia.
-  - rewrite app_length in G. simpl in G. lia.
+  assert (Hc : forall id', cnt id' (id :: rest) = ((if N.eq_dec id id' then 1 else 0) + cnt id' rest)%nat)
+    by (intros id'; unfold cnt; simpl; destruct (N.eq_dec id id'); reflexivity).
+  fold (tracked_id s id). destruct (tracked_id s id) eqn:Etr.
+  - match goal with |- context [dispatch f ?t] => destruct (IH t) as [A [B [C [D [E [F [F2 G]]]]]]]; cbn zeta in * end.
+    cbn [x_table x_objs x_next x_timers x_workers x_queue x_inflight] in *.
+    assert (Hp : forall id', pend {| x_table := x_table s; x_objs := x_objs s; x_queue := rest; x_inflight := x_inflight s ++ [id];
+                                     x_timers := x_timers s; x_next := x_next s; x_workers := x_workers s;
+                                     x_probes := x_probes s ++ [e_hash (obj s id)] |} id' = pend s id').
+    { intros id'. unfold pend. cbn [x_queue x_inflight x_timers]. rewrite Eq, cnt_snoc, Hc. destruct (N.eq_dec id id'); lia. }
+    repeat split; auto.
+    + intros id'. rewrite <- Hp. apply F.
+    + intros id' Ht. rewrite <- Hp. apply F2. exact Ht.
+    + rewrite app_length in G. simpl in G. lia.
+  - match goal with |- context [dispatch f ?t] => destruct (IH t) as [A [B [C [D [E [F [F2 G]]]]]]]; cbn zeta in * end.
+    cbn [x_table x_objs x_next x_timers x_workers x_queue x_inflight] in *.
+    assert (Hp : forall id', pend {| x_table := x_table s; x_objs := x_objs s; x_queue := rest; x_inflight := x_inflight s;
+                                     x_timers := x_timers s; x_next := x_next s; x_workers := x_workers s; x_probes := x_probes s |} id'
+                             = (pend s id' - (if N.eq_dec id id' then 1 else 0))%nat).
+    { intros id'. unfold pend. cbn [x_queue x_inflight x_timers]. rewrite Eq, Hc. destruct (N.eq_dec id id'); lia. }
+    repeat split; auto.
+    + intros id'. specialize (F id'). rewrite Hp in F. lia.
+    + intros id' Ht. rewrite F2 by exact Ht. rewrite Hp. destruct (N.eq_dec id id') as [<-|]; [congruence|lia].
 Qed.
 
 Lemma obj_same s s' id : x_objs s' = x_objs s -> obj s' id = obj s id.
@@ -70,13 +89,15 @@ Proof. unfold obj. now intros ->. Qed.
 Lemma inv_settle s : Inv s -> Inv (settle s).
 Proof.
   intros I. unfold settle.
-  destruct (dispatch_same (S (length (x_queue s))) s) as [A [B [C [D [E [F G]]]]]]. cbn zeta in *.
+  destruct (dispatch_same (S (length (x_queue s))) s) as [A [B [C [D [E [F [F2 G]]]]]]]. cbn zeta in *.
   constructor.
-  - intros id. rewrite F. apply I.
-  - intros id. rewrite F, (obj_same _ _ _ B). apply I.
-  - intros h id. rewrite A, F, (obj_same _ _ _ B). apply I.
+  - intros id. pose proof (F id). pose proof (inv_le s I id). lia.
+  - intros id Hp. rewrite (obj_same _ _ _ B). apply I. pose proof (F id). pose proof (inv_le s I id). lia.
+  - intros h id. rewrite A, (obj_same _ _ _ B). intros Ht Hl.
+    rewrite F2; [now apply (inv_tracked s I h id)|]. unfold tracked_id. destruct (inv_hash s I h id Ht) as [-> _]. now rewrite Ht, N.eqb_refl.
   - intros h id. rewrite A, C, (obj_same _ _ _ B). apply I.
-  - intros id. rewrite C, F, B. apply I.
+  - intros id Hn. rewrite C in Hn. rewrite B. destruct (inv_fresh s I id Hn) as [P0 O0]. split; [|exact O0].
+    pose proof (F id). lia.
   - intros id. rewrite (obj_same _ _ _ B). apply I.
   - rewrite A. apply I.
 Qed.
